@@ -1,7 +1,191 @@
 import GluonModel.Sexp
-open GluonModel
+import GluonModel.OptCore
+import GluonModel.Dce
+open GluonModel GluonModel.OptCore GluonModel.Dce
+
+/-! Reader of the core-IR S-expressions written by harness/src/bin/c04/coreser.rs. -/
+
+def parseLit : Sexp → Option Lit
+  | .list [.atom "i", n] => n.toInt?.map .int
+  | .list [.atom "b", n] => n.toNat?.map .byte
+  | .list [.atom "f", n] => n.toNat?.map .float
+  | .list [.atom "s", .str s] => some (.str s)
+  | .list [.atom "ch", n] => n.toNat?.map .char
+  | _ => none
+
+def parseNames (xs : List Sexp) : Option (List String) := xs.mapM Sexp.str?
+
+def parseField : Sexp → Option (String × String)
+  | .list [.str f, .str b] => some (f, b)
+  | _ => none
+
+def parsePat : Sexp → Option Pat
+  | .list [.atom "pc", .str c, .list args] => (parseNames args).map (.ctor c)
+  | .list [.atom "pr", .list fs] => (fs.mapM parseField).map .record
+  | .list [.atom "pi", .str x] => some (.ident x)
+  | .list [.atom "pl", l] => (parseLit l).map .lit
+  | _ => none
+
+mutual
+partial def parseExpr : Sexp → Option Expr
+  | .list [.atom "c", l] => (parseLit l).map .const
+  | .list [.atom "v", .str x] => some (.ident x)
+  | .list (.atom "call" :: f :: args) => do
+    let f ← parseExpr f
+    let args ← args.mapM parseExpr
+    pure (.call f (Exprs.ofList args))
+  | .list (.atom "data" :: .str c :: .list rows :: args) => do
+    let rows ← parseNames rows
+    let args ← args.mapM parseExpr
+    pure (.data c rows (Exprs.ofList args))
+  | .list [.atom "let", .str x, e, body] => do
+    let e ← parseExpr e
+    let body ← parseExpr body
+    pure (.letE x e body)
+  | .list [.atom "rec", .list cs, body] => do
+    let cs ← cs.mapM parseClosure
+    let body ← parseExpr body
+    pure (.letRec (Closures.ofList cs) body)
+  | .list (.atom "match" :: s :: alts) => do
+    let s ← parseExpr s
+    let alts ← alts.mapM parseAlt
+    pure (.matchE s (Alts.ofList alts))
+  | .list [.atom "cast", e] => (parseExpr e).map .cast
+  | _ => none
+partial def parseAlt : Sexp → Option (Pat × Expr)
+  | .list [p, e] => do
+    let p ← parsePat p
+    let e ← parseExpr e
+    pure (p, e)
+  | _ => none
+partial def parseClosure : Sexp → Option (String × List String × Expr)
+  | .list [.str n, .list args, b] => do
+    let args ← parseNames args
+    let b ← parseExpr b
+    pure (n, args, b)
+  | _ => none
+end
+
+/-! Printer: the same walk as coreser.rs `expr`; `dummy%…` names are renumbered by first
+    occurrence in the printed expression. -/
+
+def showName (x : String) (tbl : List String) : String × List String :=
+  if x.startsWith "dummy%" then
+    match tbl.idxOf? x with
+    | some i => (Sexp.quote ("dummy%" ++ toString i), tbl)
+    | none => (Sexp.quote ("dummy%" ++ toString tbl.length), tbl ++ [x])
+  else (Sexp.quote x, tbl)
+
+def showNames (xs : List String) (tbl : List String) : List String × List String :=
+  xs.foldl (fun (acc : List String × List String) x =>
+    let (s, t) := showName x acc.2
+    (acc.1 ++ [s], t)) ([], tbl)
+
+def showLit : Lit → String
+  | .int i => "(i " ++ toString i ++ ")"
+  | .byte n => "(b " ++ toString n ++ ")"
+  | .float n => "(f " ++ toString n ++ ")"
+  | .str s => "(s " ++ Sexp.quote s ++ ")"
+  | .char n => "(ch " ++ toString n ++ ")"
+
+def showPat (p : Pat) (tbl : List String) : String × List String :=
+  match p with
+  | .ctor c args =>
+    let (ss, tbl) := showNames args tbl
+    ("(pc " ++ Sexp.quote c ++ " (" ++ " ".intercalate ss ++ "))", tbl)
+  | .record fs =>
+    let (ss, tbl) := fs.foldl (fun (acc : List String × List String) f =>
+      let (s, t) := showName f.2 acc.2
+      (acc.1 ++ ["(" ++ Sexp.quote f.1 ++ " " ++ s ++ ")"], t)) ([], tbl)
+    ("(pr (" ++ " ".intercalate ss ++ "))", tbl)
+  | .ident x =>
+    let (s, tbl) := showName x tbl
+    ("(pi " ++ s ++ ")", tbl)
+  | .lit l => ("(pl " ++ showLit l ++ ")", tbl)
+
+mutual
+partial def showExpr (e : Expr) (tbl : List String) : String × List String :=
+  match e with
+  | .const l => ("(c " ++ showLit l ++ ")", tbl)
+  | .ident x =>
+    let (s, tbl) := showName x tbl
+    ("(v " ++ s ++ ")", tbl)
+  | .call f args =>
+    let (sf, tbl) := showExpr f tbl
+    let (sa, tbl) := showList args tbl
+    ("(call " ++ sf ++ sa ++ ")", tbl)
+  | .data c rows args =>
+    let (sa, tbl) := showList args tbl
+    ("(data " ++ Sexp.quote c ++ " (" ++ " ".intercalate (rows.map Sexp.quote) ++ ")" ++ sa ++ ")", tbl)
+  | .letE x e1 body =>
+    let (sx, tbl) := showName x tbl
+    let (s1, tbl) := showExpr e1 tbl
+    let (s2, tbl) := showExpr body tbl
+    ("(let " ++ sx ++ " " ++ s1 ++ " " ++ s2 ++ ")", tbl)
+  | .letRec cs body =>
+    let (names, tbl) := showNames (closureNames cs) tbl
+    let (sc, tbl) := showClosures cs names tbl
+    let (sb, tbl) := showExpr body tbl
+    ("(rec (" ++ " ".intercalate sc ++ ") " ++ sb ++ ")", tbl)
+  | .matchE s alts =>
+    let (ss, tbl) := showExpr s tbl
+    let (sa, tbl) := showAlts alts tbl
+    ("(match " ++ ss ++ sa ++ ")", tbl)
+  | .cast e1 =>
+    let (s1, tbl) := showExpr e1 tbl
+    ("(cast " ++ s1 ++ ")", tbl)
+partial def showList (es : Exprs) (tbl : List String) : String × List String :=
+  match es with
+  | .nil => ("", tbl)
+  | .cons e rest =>
+    let (s, tbl) := showExpr e tbl
+    let (r, tbl) := showList rest tbl
+    (" " ++ s ++ r, tbl)
+partial def showAlts (as : Alts) (tbl : List String) : String × List String :=
+  match as with
+  | .nil => ("", tbl)
+  | .cons p e rest =>
+    let (sp, tbl) := showPat p tbl
+    let (se, tbl) := showExpr e tbl
+    let (r, tbl) := showAlts rest tbl
+    (" (" ++ sp ++ " " ++ se ++ ")" ++ r, tbl)
+partial def showClosures (cs : Closures) (names : List String) (tbl : List String) :
+    List String × List String :=
+  match cs, names with
+  | .cons _ args b rest, n :: ns =>
+    let (sa, tbl) := showNames args tbl
+    let (sb, tbl) := showExpr b tbl
+    let (r, tbl) := showClosures rest ns tbl
+    (("(" ++ n ++ " (" ++ " ".intercalate sa ++ ") " ++ sb ++ ")") :: r, tbl)
+  | _, _ => ([], tbl)
+end
+
+def render (e : Expr) : String := (showExpr e []).1
+
+def showUsed (l : List String) : String :=
+  let names := (l.filter fun x => !(x.startsWith "#") && x != topName).eraseDups
+  let qs := (names.map Sexp.quote).mergeSort (fun a b => decide (a ≤ b))
+  "(used" ++ String.join (qs.map (" " ++ ·)) ++ ")"
+
+def showBool (b : Bool) : String := if b then "true" else "false"
+
+def closedOf (e : Expr) : Bool :=
+  let st := graphOf ruleNow e
+  closedUnder st.edges (reachable st)
 
 def handle : List Sexp → String
-  | _ => "unimplemented"
+  | [.atom "opt", e] =>
+    match parseExpr e with
+    | none => "bad-expr"
+    | some e =>
+      let u := usedBindings e
+      let d := dce (inList u) e
+      let e1 := unnecessaryAlloc e
+      let u1 := usedBindings e1
+      let o := dce (inList u1) e1
+      showUsed u ++ " (dce " ++ render d ++ ") (opt " ++ render o ++ ") (kept "
+        ++ showBool (kept (inList u) e) ++ " " ++ showBool (kept (inList u1) e1) ++ ") (closed "
+        ++ showBool (closedOf e) ++ " " ++ showBool (closedOf e1) ++ ")"
+  | _ => "bad-request"
 
 def main : IO Unit := driverLoop handle
